@@ -102,6 +102,23 @@ func (P) Exec(line string) string {
 			out += " || " + runHS(c, split(f[10]))
 		}
 		return out
+	case "inv":
+		// C18 inv <n> <known> <dups> <blocks>
+		if len(f) != 6 {
+			return "bad-op"
+		}
+		var v [4]int
+		for i := range v {
+			x, err := strconv.Atoi(f[2+i])
+			if err != nil || x < 0 || x > 5000 {
+				return "bad-op"
+			}
+			v[i] = x
+		}
+		if v[1] > v[0] || v[1]+v[2] > v[0] || v[3] > 40 {
+			return "bad-op"
+		}
+		return runInv(v[0], v[1], v[2], v[3])
 	case "racerun":
 		// C18 racerun build=.. races=.. mism=..: result of the -race build of this
 		// harness, obtained in Generate (thorough tier).
@@ -421,6 +438,17 @@ func (P) Generate(g *core.Gen) {
 			}
 		}
 		g.Case(class, true, fmt.Sprintf("C18 hs2 %s %s %s", tr, strings.Join(f[2:9], " "), toks2))
+	}
+	// 2d. inventory trickle: batching at maxInvTrickleSize, known-inventory filter.
+	for _, c := range [][4]int{{0, 0, 0, 0}, {1, 0, 0, 1}, {999, 0, 0, 0}, {1000, 0, 0, 2}, {1001, 0, 0, 0},
+		{2000, 0, 0, 0}, {2001, 7, 3, 1}, {1500, 500, 400, 3}} {
+		g.Case("inv-trickle", c[0] > 0, fmt.Sprintf("C18 inv %d %d %d %d", c[0], c[1], c[2], c[3]))
+	}
+	for i, n := 0, g.N(4, 60); i < n; i++ {
+		nn := int(r.Range(1, 3200))
+		k := r.Intn(nn/2 + 1)
+		d := r.Intn(nn - k + 1)
+		g.Case("inv-trickle", true, fmt.Sprintf("C18 inv %d %d %d %d", nn, k, d, r.Intn(5)))
 	}
 	// 3. messages queued while the handshake is still in progress.
 	for _, dir := range []string{"in", "out"} {
